@@ -251,7 +251,16 @@ impl SmartCalcConfig {
             }
 
             for month in month_list.iter() {
-                let pattern = &format!(r"\b{}\b|\b{}\b", month.long, month.short);
+                // every configured spelling of the month is recognised (the printed names stay the
+                // last long / short key); long names first
+                let mut names: Vec<&String> = Vec::new();
+                for (month_name, month_number) in &language_constant.long_months {
+                    if *month_number == month.month { names.push(month_name); }
+                }
+                for (month_name, month_number) in &language_constant.short_months {
+                    if *month_number == month.month && !names.contains(&month_name) { names.push(month_name); }
+                }
+                let pattern = &names.iter().map(|name| format!(r"\b{}\b", name)).collect::<Vec<String>>().join("|");
                 match Regex::new(pattern) {
                     Ok(re) => language_group.push((re, month.clone())),
                     Err(error) => log::error!("Month parser error ({}) {}", month.long, error)
